@@ -23,26 +23,10 @@ NON_ITEM_INTERP = {"repr", "repr_unsigned", "ident_enum", "vis", "vis_enum", "na
 
 
 def check_names_rs(src):
-    """generator/names.rs must derive every ident_* from the feature that owns the item"""
-    toks = src.toks("generator/names.rs")
-    s = text_of(toks)
-    found = {}
-    for m in re.finditer(r"(ident_\w+) : Ident :: new \( & features . (\w+) . name", s):
-        found[m.group(1)] = FIELD_FLAG[m.group(2)]
-    for m in re.finditer(r"(ident_\w+) : match features . (\w+) . struct_name", s):
-        found[m.group(1)] = FIELD_FLAG[m.group(2)]
-    for m in re.finditer(r'(ident_table_\w+) : Ident :: new \( "(__\w+)"', s):
-        found[m.group(1)] = {"ident_table_enum": "tableEnum", "ident_table_name": "tableName", "ident_table_range": "tableRange"}[m.group(1)]
-    for k, v in IDENT_FLAG.items():
-        if found.get(k) != v:
-            err("generator/names.rs", 1, f"`{k}` is no longer derived from feature `{v}` (found {found.get(k)})")
-    for k in found:
-        if k not in IDENT_FLAG:
-            err("generator/names.rs", 1, f"new name `{k}`: the model does not know which item it names")
-    # default struct names
-    if 'format ! ( "{ident_enum}Iter" )' not in s or 'format ! ( "{ident_enum}Names" )' not in s:
-        err("generator/names.rs", 1, "default struct names are no longer EnumName+Iter / EnumName+Names")
-    return found
+    """generator/names.rs must derive every ident_* from the feature that owns the item (`Src.names_rename` reads it;
+    after the renaming every file uses the canonical field names of IDENT_FLAG)"""
+    src.names_rename()
+    return dict(IDENT_FLAG)
 
 
 def quote_interps(q):
@@ -63,6 +47,64 @@ def quote_uses_offset(q):
     return False
 
 
+def local_bindings(src, rel):
+    """names bound by `let`, closure parameters and `for` patterns anywhere in a source file, none of which aliases an item
+    name of `Names` (such an alias would hide a dependency from `usesTable`)"""
+    cache = src.__dict__.setdefault("_local_bindings", {})
+    if rel in cache:
+        return cache[rel]
+    t = src.toks(rel)
+    out = set()
+    n = len(t)
+    inside = [False] * n          # inside a quote! body: that is generated code, not macro code
+    i = 0
+    while i < n:
+        if t[i].text == "quote" and i + 2 < n and t[i + 1].text == "!" and t[i + 2].text in ("{", "("):
+            e = match_close(t, i + 2)
+            for k in range(i + 3, e):
+                inside[k] = True
+            i = e
+        i += 1
+    for i, x in enumerate(t):
+        if inside[i]:
+            continue
+        if x.text == "let":
+            j = i + 1
+            if j < n and t[j].text == "mut":
+                j += 1
+            if j + 1 < n and t[j].kind == "ident" and t[j + 1].text in ("=", ":"):
+                e = j
+                depth = 0
+                while e < n and not (t[e].text == ";" and depth == 0):
+                    depth += (t[e].text in ("(", "[", "{")) - (t[e].text in (")", "]", "}"))
+                    e += 1
+                rhs = text_of(t[j + 1:e])
+                if re.search(r"\bident_(?!enum\b)\w+|\bnames \.", rhs) and "quote !" not in rhs:
+                    err(rel, x.line, f"local `{t[j].text}` aliases an item name of `Names`")
+                out.add(t[j].text)
+        elif x.text == "|" and i + 1 < n:
+            # closure parameters: identifiers up to the closing bar (patterns included)
+            j = i + 1
+            tmp = []
+            while j < n and t[j].text != "|" and j - i < 14:
+                if t[j].kind == "ident" and t[j].text not in ("mut", "ref"):
+                    tmp.append(t[j].text)
+                j += 1
+            if j < n and t[j].text == "|":
+                out.update(tmp)
+        elif x.text == "for":
+            j = i + 1
+            tmp = []
+            while j < n and t[j].text not in ("in", "{") and j - i < 14:
+                if t[j].kind == "ident":
+                    tmp.append(t[j].text)
+                j += 1
+            if j < n and t[j].text == "in":
+                out.update(tmp)
+    cache[rel] = out
+    return out
+
+
 def walk_generate(src, nodes, rel, own, path, out, depth=0):
     """collect (flag, guard atoms, used flags) per quote! block"""
     for n in nodes:
@@ -73,7 +115,7 @@ def walk_generate(src, nodes, rel, own, path, out, depth=0):
                     f = IDENT_FLAG[name]
                     if f != own and f not in used:
                         used.append(f)
-                elif name not in NON_ITEM_INTERP:
+                elif name not in NON_ITEM_INTERP and name not in local_bindings(src, rel):
                     err(rel, n.line, f"unknown interpolation `#{name}` in a template")
             if quote_uses_offset(n) and "tableRange" in used:
                 used.append("tableRangeOfs")
@@ -301,6 +343,16 @@ def all_templates(src):
                 q = Quote(toks[i + 3:e], toks[i].line)
                 # `LIST.push(quote!{…})`: a fragment spliced into another template as `#(#LIST)*`
                 q.pushed_to = toks[i - 4].text if i >= 4 and text_of(toks[i - 3:i]) == ". push (" else None
+                if q.pushed_to is None:
+                    # `let LIST = <iterator>.map(|…| quote!{…}).collect…;`: also a fragment of LIST
+                    b = i - 1
+                    while b >= 0 and (toks[b].text not in (";", "{", "}") or (toks[b].text == "{" and b > 0 and toks[b - 1].text == "|")):
+                        b -= 1
+                    st = toks[b + 1:i]
+                    if len(st) > 3 and st[0].text == "let":
+                        k = 2 if st[1].text == "mut" else 1
+                        if st[k].kind == "ident" and st[k + 1].text == "=" and len(st) > k + 2 and ". map (" in text_of(st):
+                            q.pushed_to = st[k].text
                 out.append((rel, grp, q))
                 i = e + 1
             else:
@@ -608,7 +660,7 @@ def gen_inventory(src):
                     continue
                 t2 = q2.toks
                 for i in range(len(t2) - 5):
-                    if text_of(t2[i:i + 6]) == f"# ( # {q.pushed_to} ) *":
+                    if text_of(t2[i:i + 5]) == f"# ( # {q.pushed_to} )" and (t2[i + 5].text == "*" or (t2[i + 5].text == "," and i + 6 < len(t2) and t2[i + 6].text == "*")):
                         hosts.append((q2, i))
             if len(hosts) != 1:
                 err(rel, q.line, f"template pushed to `{q.pushed_to}` is spliced {len(hosts)} times in its function")
@@ -633,8 +685,19 @@ def gen_inventory(src):
         uses_vis = "# vis" in text_of(src.toks(rel)) or any("# vis" in text_of(src.toks(r)) for r in (src.iter_files() if field == "iter" else []))
         if uses_vis:
             texts = [body] + ([text_of(src.toks(r)) for r in src.iter_files()] if field == "iter" else [])
-            ok = all(("let vis = self . vis . as_ref ( ) . unwrap_or ( & derive . vis_enum )" in tx or "let vis = self . vis . as_ref ( ) . unwrap_or ( vis_enum )" in tx)
-                     for tx in texts if "# vis" in tx)
+            def vis_from_user_or_enum(tx):
+                if "let vis = self . vis . as_ref ( ) . unwrap_or ( & derive . vis_enum )" in tx or "let vis = self . vis . as_ref ( ) . unwrap_or ( vis_enum )" in tx:
+                    return True
+                # the same expression behind a helper method of `Derive`
+                m = re.search(r"let vis = derive \. (\w+) \( & self \. vis \) ;", tx)
+                if m:
+                    hf = find_fn(src.toks("generator/mod.rs"), m.group(1))
+                    if hf:
+                        pm = re.search(r"(\w+) : & (?:'\w+ )?Option < Visibility >", text_of(hf[0]))
+                        if pm and text_of(hf[1]) == f"{pm.group(1)} . as_ref ( ) . unwrap_or ( & self . vis_enum )":
+                            return True
+                return False
+            ok = all(vis_from_user_or_enum(tx) for tx in texts if "# vis" in tx)
             vis_ok.append((FIELD_FLAG[field], ok))
     L = ["-- GENERATED by /verif/translate from every quote! template of /repo/src. Do not edit.", "namespace ET.Generated", "",
          "inductive NameClass where",
